@@ -399,6 +399,8 @@ package core
 //@ guard MemStorage.locToPairs by MemStorage.Mutex
 //@ func (*MemStorage).loc
 //@   requires[C11.memstorage_loc_needs_lock] heldW(s.Mutex)
+//@   ensures[C06.mem_loc] result != nil && has(s.locToPairs, loc) && s.locToPairs[loc] == result && s.locToPairs == old(s.locToPairs)
+//@   modifies s.locToPairs[*]
 
 // Reading a property of a location does not touch the system's location cache (assumed frame; used by C17).
 //@ func (*Location).GetProp
@@ -602,11 +604,11 @@ package core
 //@   ensures[C08.ix_search_only_removes]     forall(k, string, has(s.IdToFact, k) ==> old(has(s.IdToFact, k)))
 //@   ensures[C06.ix_search_storage_monotone] stRems >= old(stRems)
 //@   loop 1: invariant[C08.ix_search_loop] stRems >= old(stRems) && forall(k, string, has(s.IdToFact, k) ==> old(has(s.IdToFact, k)))
-//@   also-modifies remErr, stRems, stErr
+//@   also-modifies stRems, stErr
 //@ func (*IndexedState).expire
 //@   ensures[C08.ix_expire_only_removes]     forall(k, string, has(s.IdToFact, k) ==> old(has(s.IdToFact, k)))
 //@   ensures[C06.ix_expire_storage_monotone] stRems >= old(stRems)
-//@   also-modifies remErr, stRems, stErr
+//@   also-modifies stRems, stErr
 
 //@ func (*LinearState).rem
 //@   ensures[C08.lin_rem_removes_the_id]    result1 == nil ==> !has(s.Facts, id)
@@ -626,18 +628,23 @@ package core
 //@   ensures[C08.lin_search_only_removes]     forall(k, string, has(s.Facts, k) ==> old(has(s.Facts, k)))
 //@   ensures[C06.lin_search_storage_monotone] stRems >= old(stRems)
 //@   loop 1: invariant[C08.lin_search_loop] stRems >= old(stRems) && forall(k, string, has(s.Facts, k) ==> old(has(s.Facts, k)))
-//@   also-modifies remErr, stRems, stErr
+//@   also-modifies stRems, stErr
 //@ func (*LinearState).expire
 //@   ensures[C08.lin_expire_only_removes]     forall(k, string, has(s.Facts, k) ==> old(has(s.Facts, k)))
 //@   ensures[C06.lin_expire_storage_monotone] stRems >= old(stRems)
-//@   also-modifies remErr, stRems, stErr
+//@   also-modifies stRems, stErr
 
 // Properties attach to their target through deleteWith; rules lift their deleteWith to the stored wrapper.
-//@ func SetProp
-//@   assert[C08.setprop_depends_on_target] at "s.Add(ctx, \"\", fact)": true
 //@ func (*MemStorage).Add
 //@   ensures[C06.mem_add] result == nil && has(s.locToPairs, loc) && has(s.locToPairs[loc], old(str(m.K))) && s.locToPairs[loc][old(str(m.K))] == old(str(m.V))
 //@ func (*MemStorage).Remove
 //@   ensures[C06.mem_remove] result1 == nil && !has(s.locToPairs[loc], old(str(k)))
 //@ func (*MemStorage).Clear
 //@   ensures[C06.mem_clear] result1 == nil && !has(s.locToPairs, loc)
+
+//@ funcval (*IndexedState).remHooks.remHook
+//@   modifies allbut(F:core.IndexedState.|LK:)
+//@ func (*IndexedState).remHooks
+//@   ensures[C06.ix_remhooks_no_storage] stErr == old(stErr)
+//@ func (*IndexedState).Load
+//@   loop 1: invariant[C06.ix_load_loop] !stErr
